@@ -92,12 +92,44 @@ func c18ProcSessions(t *rapid.T) {
 		}
 		steps := rapid.IntRange(0, 10).Draw(t, "steps")
 		for i := 0; i < steps; i++ {
-			switch rapid.SampledFrom([]string{"edit", "prev", "prev", "next", "type", "revert"}).Draw(t, "op") {
+			switch rapid.SampledFrom([]string{"edit", "prev", "prev", "next", "type", "revert", "chain", "chain"}).Draw(t, "op") {
 			case "edit":
 				input = rapid.StringMatching(`[a-c]{0,3}`).Draw(t, "input")
 				trace = append(trace, fmt.Sprintf("change-query(%s)", input))
 				s.Post("change-query(" + input + ")")
 				check("change-query")
+			case "chain":
+				// several actions in one binding / one POST: each works on what the one before left
+				k := rapid.IntRange(2, 3).Draw(t, "chainLen")
+				var parts []string
+				for j := 0; j < k; j++ {
+					switch rapid.SampledFrom([]string{"prev-history", "prev-history", "next-history", "put", "change-query", "backward-delete-char"}).Draw(t, "chained") {
+					case "prev-history":
+						input = sess.Previous(input)
+						navigated = true
+						parts = append(parts, "prev-history")
+					case "next-history":
+						input = sess.Next(input)
+						navigated = true
+						parts = append(parts, "next-history")
+					case "put":
+						c := rapid.SampledFrom([]string{"a", "b", "c"}).Draw(t, "c")
+						input += c
+						parts = append(parts, "put("+c+")")
+					case "change-query":
+						input = rapid.StringMatching(`[a-c]{1,3}`).Draw(t, "input")
+						parts = append(parts, "change-query("+input+")")
+					case "backward-delete-char":
+						if rs := []rune(input); len(rs) > 0 {
+							input = string(rs[:len(rs)-1])
+						}
+						parts = append(parts, "end-of-line+backward-delete-char")
+					}
+				}
+				body := strings.Join(parts, "+")
+				trace = append(trace, fmt.Sprintf("%s -> expect %q", body, input))
+				s.Post(body)
+				check(body)
 			case "revert":
 				// put the entry back to what was loaded (an edit that is undone by hand)
 				if !sess.AtStored() {
@@ -250,6 +282,29 @@ func c19ProcWalker(t *rapid.T) {
 		parent.node.Children = append(parent.node.Children, node)
 		all = append(all, c19Ent{p, node})
 	}
+	// a directory that cannot be read (fzf runs as an unprivileged user then): it is listed, its
+	// content cannot be, and everything else is listed as usual
+	locked := rapid.IntRange(0, 3).Draw(t, "unreadableDir") == 0
+	if locked {
+		os.Chmod(root, 0o755)
+		dirName := rapid.SampledFrom([]string{"locked", "a-locked", "zz-locked"}).Draw(t, "lockedName")
+		for _, c := range top.Children {
+			if c.Name == dirName {
+				locked = false
+			}
+		}
+		if locked {
+			lp := filepath.Join(root, dirName)
+			os.Mkdir(lp, 0o755)
+			os.WriteFile(filepath.Join(lp, "inside-1"), []byte("x"), 0o644)
+			os.WriteFile(filepath.Join(lp, "inside-2"), []byte("x"), 0o644)
+			os.Chmod(lp, 0o000)
+			defer os.Chmod(lp, 0o755)
+			node := &oracle.WNode{Name: dirName, Kind: oracle.WDir, Parent: top}
+			top.Children = append(top.Children, node)
+			all = append(all, c19Ent{dirName, node})
+		}
+	}
 	o := oracle.WalkOpts{File: rapid.Bool().Draw(t, "file"), Dir: rapid.Bool().Draw(t, "dir"), Follow: rapid.Bool().Draw(t, "follow"), Hidden: rapid.Bool().Draw(t, "hidden")}
 	if !o.File && !o.Dir {
 		o.File = true
@@ -316,7 +371,7 @@ func c19ProcWalker(t *rapid.T) {
 	if walkPath != "." {
 		args = append(args, "--walker-root", walkPath)
 	}
-	s := StartSession(t, SessionCfg{Args: args, NoStdin: true, Cwd: root, Width: 80, Height: 30, Env: []string{"FZF_DEFAULT_COMMAND="}})
+	s := StartSession(t, SessionCfg{Args: args, NoStdin: true, Cwd: root, Width: 80, Height: 30, Env: []string{"FZF_DEFAULT_COMMAND="}, AsNobody: locked})
 	defer s.Close()
 	// reading is over when the flag is off and the count has stopped moving
 	var st *Status
@@ -359,7 +414,7 @@ func c19ProcWalker(t *rapid.T) {
 	} else if walkPath != "." {
 		rootLabel = "named-directory"
 	}
-	vstat.Case("C19/proc-walker", desc, len(all) >= 4 && (hasLink || !o.Hidden), "walker="+strings.Join(w, ","), "root="+rootLabel)
+	vstat.Case("C19/proc-walker", desc, len(all) >= 4 && (hasLink || !o.Hidden), "walker="+strings.Join(w, ","), "root="+rootLabel, fmt.Sprintf("unreadable_dir=%v", locked))
 	if msg := oracle.CheckWalk(got, want); msg != "" {
 		t.Fatalf("%s\nlisted: %q\nmust: %q\nmay: %q\n%s", msg, got, want.Must, want.May, desc)
 	}
